@@ -121,6 +121,9 @@ struct pfx {
      * before it travels on (applications act inside events: e.g. release their handle on source_end) */
     void (*event_hook)(struct pfx *pfx, int probe_id, struct upipe *upipe, int event, void *opaque);
     void *event_opaque;
+    /* optional: the application's answer to the probe_uref event of upipe_probe_uref (true: "drop this buffer") */
+    bool (*probe_uref_hook)(struct pfx *pfx, int probe_id, struct upipe *upipe, struct uref *uref, void *opaque);
+    void *probe_uref_opaque;
 };
 
 int  pfx_init(struct pfx *pfx, const struct pfx_cfg *cfg);
